@@ -12,7 +12,26 @@ import (
 	"fmt"
 	"math/rand"
 	"os"
+	"runtime"
+	"sync"
+	"time"
 )
+
+// a case that never returns (a seeded hang) may keep allocating in its abandoned goroutine:
+// stop the run, keeping what was written so far, before the machine runs out of memory
+var flushAndExit func(why string)
+var outMu sync.Mutex
+
+func memoryWatchdog() {
+	for {
+		time.Sleep(200 * time.Millisecond)
+		var ms runtime.MemStats
+		runtime.ReadMemStats(&ms)
+		if ms.Sys > 6<<30 {
+			flushAndExit(fmt.Sprintf("memory %d MiB", ms.Sys>>20))
+		}
+	}
+}
 
 func main() {
 	if len(os.Args) < 2 {
@@ -29,6 +48,13 @@ func main() {
 
 	out := bufio.NewWriterSize(os.Stdout, 1<<20)
 	defer out.Flush()
+	flushAndExit = func(why string) {
+		outMu.Lock()
+		out.Flush()
+		fmt.Fprintf(os.Stderr, "harness: stopping early: %s\n", why)
+		os.Exit(0)
+	}
+	go memoryWatchdog()
 	rng := rand.New(rand.NewSource(*seed*7919 + int64(len(domain))))
 	thorough := *tier == "thorough"
 	cnt := func(q, t int) int {
